@@ -17,6 +17,21 @@ Theorem C15_eq_hash : forall a b, valid_int a -> valid_int b ->
   (tc_val a = tc_val b -> int_hash_input a = int_hash_input b).
 Proof. exact int_eq_spec. Qed.
 
+(* equality and ordering are consistent with each other (a == b exactly when
+   the comparison says Equal), and the ordering is antisymmetric and
+   transitive, as Rust's Eq/Ord contracts require *)
+Theorem C15_eq_cmp_consistent : forall a b, valid_int a -> valid_int b ->
+  (int_eq a b = true <-> int_cmp a b = Ok Eq).
+Proof. exact int_eq_cmp_consistent. Qed.
+
+Theorem C15_cmp_antisym : forall a b, valid_int a -> valid_int b ->
+  forall o, int_cmp a b = Ok o -> int_cmp b a = Ok (CompOpp o).
+Proof. exact int_cmp_antisym. Qed.
+
+Theorem C15_cmp_trans : forall a b c, valid_int a -> valid_int b -> valid_int c ->
+  int_cmp a b = Ok Lt -> int_cmp b c = Ok Lt -> int_cmp a c = Ok Lt.
+Proof. exact int_cmp_trans. Qed.
+
 (* zero / positive / negative predicates *)
 Theorem C15_predicates : forall c, valid_int c ->
   int_is_zero c = Ok (tc_val c =? 0)%Z /\
@@ -49,3 +64,6 @@ Print Assumptions C15_eq_hash.
 Print Assumptions C15_predicates.
 Print Assumptions C15_try_from.
 Print Assumptions C15_from_bytes.
+Print Assumptions C15_eq_cmp_consistent.
+Print Assumptions C15_cmp_antisym.
+Print Assumptions C15_cmp_trans.
